@@ -133,8 +133,8 @@ def check_current_table(ctx, tr, text):
     for i in range(n):
         srch.append("Eval vm_compute in (check_shared (r_shared region_%d))." % i)
         srch.append("Eval vm_compute in (find_conflict region_%d)." % i)
-        srch.append("Eval vm_compute in (map p_name (filter (fun p => negb (pclass_ok (p_class p))) "
-                    "(r_private region_%d)))." % i)
+        srch.append("Eval vm_compute in (map p_name (filter (fun p => negb (pvar_ok p) || "
+                    "negb (pclass_ok (classify (p_events p)))) (r_private region_%d)))." % i)
     srch.append("Eval vm_compute in gen_hlle_found.")
     srch.append("Eval vm_compute in (map (fun d => hlle_cols_ok gen_hlle_step gen_hlle_col d) (seq 1 6)).")
     srch.append("Eval vm_compute in (map (fun d => hlle_written gen_hlle_step gen_hlle_col d) (seq 1 4)).")
